@@ -395,3 +395,89 @@ pub fn run(ctx: &Ctx, rep: &mut Report) {
         o
     });
 }
+
+/// Miri-sized workload (each call costs milliseconds there): a few hundred calls per shard,
+/// weighted to the paths where unsafe code and fixed-capacity containers live (no-alloc
+/// `many_m_n` / `count`, heapless vectors and strings, reassembly buffers).
+pub fn run_miri(ctx: &Ctx, rep: &mut Report) {
+    let mut r = ctx.rng("c01-miri");
+    let mut h = Hist::new();
+    // header histories incl. the patterns that once panicked
+    let pats: [&[(u8, u8, Option<u8>)]; 4] = [
+        &[(3, 1, Some(1)), (3, 2, Some(1)), (3, 0, Some(1))],
+        &[(2, 1, None), (2, 2, None), (3, 3, None), (4, 4, None)],
+        &[(255, 1, Some(9)), (255, 2, Some(9)), (255, 255, Some(9))],
+        &[(0, 0, None), (0, 1, None), (1, 0, None), (1, 2, None)],
+    ];
+    for p in pats {
+        h = Hist::new();
+        for (i, (n, k, id)) in p.iter().enumerate() {
+            h.feed(rep, "miri-hdr", hdr_line(*n, *k, *id, i as u64), i % 2 == 0);
+        }
+    }
+    // every layout branch once by each route that matters; lists with 1..6 elements
+    let branches: Vec<&gen::Branch> = gen::BRANCHES.iter().chain(gen::LONG_TEXT_BRANCHES.iter()).collect();
+    for (i, b) in branches.iter().enumerate() {
+        if !ctx.mine(i as u64) {
+            continue;
+        }
+        let bits = gen::gen_message(b, &mut r);
+        msg_call(rep, "miri-msg", &bits.to_bytes());
+        let (chars, fill) = bits.to_armor();
+        if chars.len() <= 384 {
+            h.feed(rep, "miri-line", nmea_ref::mk(1, 1, None, &chars, fill), true);
+        }
+        let mut t = bits.clone();
+        let cut = r.usize(0, t.len());
+        t.truncate(cut);
+        msg_call(rep, "miri-msg-trunc", &t.to_bytes());
+    }
+    for (t, el) in [(7u8, 32usize), (13, 32), (20, 30)] {
+        for cnt in 0..=6usize {
+            if !ctx.mine((t as usize + cnt) as u64) {
+                continue;
+            }
+            let mut bits = Bits::random(40 + el * cnt, &mut r);
+            bits.put(0, 6, t as u64);
+            msg_call(rep, "miri-list", &bits.to_bytes());
+        }
+    }
+    for chars in [1usize, 19, 20, 21, 22, 40] {
+        if !ctx.mine(chars as u64) {
+            continue;
+        }
+        for (t, hdr) in [(12u8, 72usize), (14, 40)] {
+            let mut bits = Bits::random(hdr + 6 * chars, &mut r);
+            bits.put(0, 6, t as u64);
+            msg_call(rep, "miri-text", &bits.to_bytes());
+        }
+    }
+    // reassembly up to and beyond the fixed buffer
+    if ctx.mine(3) {
+        let mut hh = Hist::new();
+        for (k, len) in [(1u8, 200usize), (2, 184), (3, 1), (4, 50)] {
+            hh.feed(rep, "miri-capacity", nmea_ref::mk(4, k, Some(1), &armor_chars(&mut r, len), 0), false);
+        }
+        hh.feed(rep, "miri-capacity", nmea_ref::mk(1, 1, None, &armor_chars(&mut r, 385), 0), true);
+    }
+    // unarmor around the interesting lengths
+    for len in [0usize, 1, 2, 3, 4, 5, 511, 512, 513] {
+        if !ctx.mine(len as u64) {
+            continue;
+        }
+        for fill in [0usize, 1, 5] {
+            let s = armor_chars(&mut r, len);
+            rep.eval();
+            if let Err(pi) = mon::call_unarmor(&s, fill) {
+                rep.violation(PID, format!("panic@{}", pi.loc), pi.msg.clone(), || mon::replay_unarmor(&s, fill, "miri-unarmor"));
+            }
+        }
+    }
+    // a little grammar / mutation traffic
+    for _ in 0..ctx.budget(12, 60) {
+        let b = random_build(&mut r, 100);
+        h.feed(rep, "miri-grammar", b.line(), r.bool());
+        let base = r.pick(nmea_ref::CORPUS).to_vec();
+        h.feed(rep, "miri-mutation", mutate(&mut r, &base), true);
+    }
+}
